@@ -434,11 +434,139 @@ class _FuncEval:
 
     # ------------------------------------------------------------------ statements
     def block(self, stmts, st: Optional[State]) -> Optional[State]:
-        for s in stmts:
+        stmts = list(stmts)
+        i = 0
+        while i < len(stmts):
             if st is None:
                 return None
-            st = self.stmt(s, st)
+            if self.ev.deep_inline_in and i + 1 < len(stmts):
+                blk = self._expand_option_helper(stmts[i], stmts[i + 1], st)
+                if blk is not None:
+                    st = self.block(blk, st)
+                    i += 2
+                    continue
+            st = self.stmt(stmts[i], st)
+            i += 1
         return st
+
+    def _expand_option_helper(self, s1: ast.AST, s2: ast.AST, st: State) -> Optional[list]:
+        """T3  x = H(a)                          H  ==  prefix; loop{... return V ...}; return None      (V never None)
+               if x is None: S_none              ==>  prefix; loop{... x = V; S_some; break ...} else: S_none
+               else:         S_some
+        A "find the first ... or None" helper followed by the test of its result.  Equivalent because V is not None (so the
+        test tells exactly which return was taken), nothing runs between H's return and the test, and x is not used afterwards;
+        S_some must not contain a break/continue of an enclosing loop (it moves inside H's loop)."""
+        import copy
+        if not (isinstance(s1, ast.Assign) and len(s1.targets) == 1 and isinstance(s1.targets[0], ast.Name) and isinstance(s1.value, ast.Call)
+                and isinstance(s2, ast.If)):
+            return None
+        x = s1.targets[0].id
+        t = s2.test
+        if not (isinstance(t, ast.Compare) and len(t.ops) == 1 and isinstance(t.ops[0], (ast.Is, ast.IsNot)) and isinstance(t.left, ast.Name)
+                and t.left.id == x and isinstance(t.comparators[0], ast.Constant) and t.comparators[0].value is None):
+            return None
+        s_none, s_some = (s2.body, s2.orelse) if isinstance(t.ops[0], ast.Is) else (s2.orelse, s2.body)
+        call = s1.value
+        if any(isinstance(a, ast.Starred) for a in call.args) or any(k.arg is None for k in call.keywords):
+            return None
+        f, recv_expr = self._resolve_helper(call.func, st)
+        if f is None or isinstance(f.node, ast.Lambda) or f.module is not self.m or not self._deep(f):
+            return None
+        if not (f.name.startswith("_") and not f.name.startswith("__")) or f.nested or f.nested_classes or f.kind in ("property", "cached_property"):
+            return None
+        a = f.node.args
+        if a.vararg or a.kwarg or a.posonlyargs:
+            return None
+        body = [b for b in f.node.body if not (isinstance(b, ast.Expr) and isinstance(b.value, ast.Constant))]
+        if len(body) < 2 or not isinstance(body[-1], ast.Return) or not isinstance(body[-2], (ast.For, ast.While)) or body[-2].orelse:
+            return None
+        loop, tail, prefix = body[-2], body[-1], body[:-2]
+        if not (tail.value is None or (isinstance(tail.value, ast.Constant) and tail.value.value is None)):
+            return None
+        bad = (ast.Return, ast.Yield, ast.YieldFrom, ast.Await, ast.FunctionDef, ast.Lambda, ast.ClassDef, ast.Global, ast.Nonlocal)
+        if any(isinstance(n, bad) for p_ in prefix for n in ast.walk(p_)):
+            return None
+        if any(isinstance(n, (ast.Yield, ast.YieldFrom, ast.Await, ast.Lambda, ast.FunctionDef, ast.ClassDef, ast.With)) for n in ast.walk(loop)):
+            return None
+        rets: list = []
+
+        def scan(stmts_, nested):
+            for y in stmts_:
+                if isinstance(y, ast.Return):
+                    if nested:
+                        raise ValueError
+                    rets.append(y)
+                elif isinstance(y, (ast.For, ast.While)):
+                    scan(y.body, True)
+                    scan(y.orelse, True)
+                elif isinstance(y, ast.If):
+                    scan(y.body, nested)
+                    scan(y.orelse, nested)
+                elif isinstance(y, ast.Try):
+                    if y.finalbody:
+                        raise ValueError
+                    scan(y.body, nested)
+                    scan(y.orelse, nested)
+                    for h in y.handlers:
+                        scan(h.body, nested)
+        try:
+            scan(loop.body, False)
+        except ValueError:
+            return None
+        if not rets:
+            return None
+        # every returned value is not None: a literal container / string / non-None constant, or the for-loop's own element
+        # drawn from a parameter annotated as a sequence of a (non-Optional) package class
+        elem_names: set = set()
+        if isinstance(loop, ast.For) and isinstance(loop.target, ast.Name) and isinstance(loop.iter, ast.Name) and loop.iter.id in f.params():
+            try:
+                pt = self.ev.types.param_type(f, loop.iter.id)
+            except Exception:
+                pt = None
+            if pt is not None and pt[0] == "seq" and pt[1][0] == "inst":
+                elem_names.add(loop.target.id)
+
+        def non_none(v):
+            return isinstance(v, (ast.Tuple, ast.List, ast.Dict, ast.Set, ast.JoinedStr)) or \
+                (isinstance(v, ast.Constant) and v.value is not None) or (isinstance(v, ast.Name) and v.id in elem_names)
+        if not all(r_.value is not None and non_none(r_.value) for r_ in rets):
+            return None
+        # x is not used anywhere else in the caller
+        if self.f is None:
+            return None
+        uses = [n for n in ast.walk(self.f.node) if isinstance(n, ast.Name) and n.id == x and isinstance(n.ctx, ast.Load)]
+        inside = {id(n) for n in ast.walk(s2)}
+        if any(id(n) not in inside for n in uses):
+            return None
+        # S_some moves inside the helper's loop: it must not break / continue an enclosing loop itself
+        def has_loop_jump(stmts_):
+            for y in stmts_:
+                if isinstance(y, (ast.Break, ast.Continue)):
+                    return True
+                if isinstance(y, (ast.For, ast.While, ast.FunctionDef, ast.ClassDef)):
+                    continue
+                for fld in ("body", "orelse", "finalbody"):
+                    sub = getattr(y, fld, None)
+                    if isinstance(sub, list) and has_loop_jump([z for z in sub if isinstance(z, ast.stmt)]):
+                        return True
+                for h in getattr(y, "handlers", []) or []:
+                    if has_loop_jump(h.body):
+                        return True
+            return False
+        if has_loop_jump(s_some):
+            return None
+        target = s1.targets[0]
+
+        def finish(out, Ren):
+            new_loop = out[-1]
+
+            class R2(ast.NodeTransformer):
+                def visit_Return(self, n):
+                    assign = ast.copy_location(ast.Assign(targets=[copy.deepcopy(target)], value=n.value), n)
+                    return [assign] + [copy.deepcopy(z) for z in s_some] + [ast.copy_location(ast.Break(), n)]
+            out[-1] = R2().visit(new_loop)
+            out[-1].orelse = [copy.deepcopy(z) for z in s_none] or [ast.Pass()]
+        return self._bind_and_rename(f, call, recv_expr, prefix + [loop], st, finish)
 
     def _exit(self, kind: str, value: Term, st: State, node: ast.AST) -> None:
         self.s.exits.append(Exit(kind, value, st.cond, node, tuple(self.loop_stack)))
@@ -1705,6 +1833,10 @@ class _FuncEval:
     def fold_builtin(self, name: str, args: list, kwargs: dict) -> Optional[Term]:
         if kwargs:
             return None
+        if name == "any" and len(args) == 1 and args[0][0] == "comp" and args[0][1] in ("gen", "list") and args[0][2][0] == "not":
+            # any(not P(x) for x in xs)  ==  not all(P(x) for x in xs): one normal form for the two spellings of a universal guard
+            c_ = args[0]
+            return mk_not(("call", ("builtin", "all"), (("comp", c_[1], c_[2][1], c_[3]),), ()))
         if name in ("isinstance", "issubclass") and len(args) == 2:
             r = self.ev.types.static_isinstance(name, args[0], args[1], self)
             if r is not None:
